@@ -225,10 +225,7 @@ def leanchecker(prop):
 # Lean driver
 
 
-def lean_driver(lines, timeout=3000):
-    """feed JSON lines to the Lean model driver, return parsed responses"""
-    if not lines:
-        return []
+def _lean_driver_one(lines, timeout):
     inp = "\n".join(json.dumps(l, separators=(",", ":")) for l in lines) + "\n"
     main = os.environ.get("VERIF_MAIN", "Main.lean")  # development: a private driver file
     r = run(["lake", "env", "lean", "--run", main], cwd=LEAN_DIR, timeout=timeout, inp=inp)
@@ -238,6 +235,25 @@ def lean_driver(lines, timeout=3000):
             f"lean driver failed rc={r.returncode} got {len(outs)}/{len(lines)} lines: {r.stderr[-2000:]}"
         )
     return [json.loads(o) for o in outs]
+
+
+def lean_driver(lines, timeout=3000):
+    """feed JSON lines to the Lean model driver, return parsed responses (the interpreter is
+    single-threaded: large batches are split into contiguous shards evaluated concurrently)"""
+    if not lines:
+        return []
+    size = sum(len(json.dumps(l)) for l in lines[:50]) / max(1, min(50, len(lines)))
+    shards = 1
+    if len(lines) >= 16 and (len(lines) >= 400 or size > 5000):
+        shards = min(8, max(2, len(lines) // 8))
+    if shards == 1:
+        return _lean_driver_one(lines, timeout)
+    from concurrent.futures import ThreadPoolExecutor
+    n = len(lines)
+    bounds = [(n * k // shards, n * (k + 1) // shards) for k in range(shards)]
+    with ThreadPoolExecutor(shards) as ex:
+        parts = list(ex.map(lambda b: _lean_driver_one(lines[b[0]:b[1]], timeout) if b[1] > b[0] else [], bounds))
+    return [r for part in parts for r in part]
 
 
 # ---------------------------------------------------------------------------------------------
